@@ -211,6 +211,10 @@ class Analyzer:
             if v[0] == "n" and v[1] is None:
                 return v, tix
             return v, tix
+        if isinstance(root, str) and root.startswith("promoted:") and not steps:
+            pv = self.promoted_scalar(root[len("promoted:"):])
+            if pv is not None:
+                return ("n", None, pv), tix
         # payload of an option-like value whose payload is known
         if len(steps) >= 2 and isinstance(steps[-2], tuple) and steps[-2][0] == "dc":
             base = st.sym.get((root, steps[:-2]))
@@ -590,6 +594,25 @@ class Analyzer:
                         out = (a[0], a[1])
         self._promoted_cache[pid] = out
         return out
+
+    def promoted_scalar(self, pid):
+        """value of a promoted `&<integer literal>` (body: `_1 = K; _0 = &_1`), or None"""
+        b = self.f.bodies.get(pid)
+        if b is None or b.nblocks != 1:
+            return None
+        vals = {}
+        ret = None
+        for bi, k, s in b.stmts():
+            if s["k"] != "assign" or s["p"].get("p"):
+                return None
+            rv = s["rv"]
+            if rv["k"] == "use" and "const" in rv["a"] and "val" in rv["a"]["const"]:
+                vals[s["p"]["l"]] = rv["a"]["const"]["val"]
+            elif rv["k"] == "ref" and s["p"]["l"] == 0 and not rv["p"].get("p"):
+                ret = rv["p"]["l"]
+            else:
+                return None
+        return vals.get(ret)
 
     def promoted_value(self, st, pid):
         b = self.f.bodies.get(pid)
